@@ -26,6 +26,43 @@ FN_ATTRS = ["#[inline]", "#[doc = \"x\"]", "/** doc */", "#[cfg(test)]", "#[cfg(
             "#[async_trait::async_trait]", "#[async_trait]", "#[mockall::automock]", "#[tracing::instrument(skip(deps))]",
             "#[some::other(a, b = 1)]", "#[::entrait::entrait(Nested)]", "#[cfg_attr(test, derive(Debug))]",
             "#[automock]", "#[async_trait(?Send)]", "#[my::automock(x)]", "#[cfg(all())]", "#[must_use]"]
+
+
+def source_dictionary(repo=None):
+    """Words the macro's own source compares things with or writes: every string literal in
+    entrait_macros/src that is an identifier.  Content-sensitive handling of user tokens (an attribute,
+    option or name the macro recognises by its spelling) is keyed on such a literal, so inputs built
+    from this dictionary follow the source: a newly special-cased word shows up in the inputs."""
+    import os
+    repo = repo or os.environ.get("ENTRAIT_REPO", "/repo")
+    words = set()
+    root = os.path.join(repo, "entrait_macros", "src")
+    for d, _, fs in os.walk(root):
+        for f in sorted(fs):
+            if f.endswith(".rs"):
+                text = open(os.path.join(d, f), errors="replace").read()
+                words.update(re.findall(r'"([A-Za-z_][A-Za-z0-9_]{1,24})"', text))
+    return sorted(words)
+
+
+RUST_KEYWORDS = {"self", "Self", "super", "crate", "ref", "dyn", "fn", "mod", "impl", "trait", "pub", "in", "as", "mut",
+                 "const", "async", "await", "unsafe", "extern", "where", "for", "static", "true", "false", "type", "use"}
+
+
+def dictionary_attrs(r, words, n):
+    """n attributes spelled with dictionary words, in the shapes attribute-sensitive code looks at"""
+    out = []
+    names = [w for w in words if w not in RUST_KEYWORDS] or ["x"]
+    for _ in range(n):
+        w, w2 = r.choice(words), r.choice(names)
+        shape = r.randrange(9)
+        out.append([
+            "#[%s]" % w2, "#[%s(a)]" % w2, "#[cfg(feature = \"%s\")]" % w, "#[cfg_attr(%s, %s)]" % (w2, r.choice(names)),
+            "#[allow(%s)]" % w2, "#[doc = \"%s\"]" % w, "#[q::%s]" % w2, "#[%s::q]" % w2, "#[cfg(%s)]" % w2,
+        ][shape])
+    return out
+
+
 BODIES = ["{ }", "{ 42 }", "{ a + b }", "{ let x = |y: u8| y; x(1); }", "{ unimplemented!() }",
           "{ if a { b } else { c } }", "{ struct Inner; impl Inner { fn f() {} } }", "{ loop { break; } }",
           "{ $ @ # ~ ? }", "{ a => b, 'x: loop {} }", "{ r#\"str\"# ; b'x'; 1.5e3; 0xff_u8 }"]
@@ -44,12 +81,15 @@ def pattern_alphabet(fn_name, gen_name):
         # a single binding with a non-default binding mode / sub-pattern inside a destructuring pattern
         ("N(mut u)", "N"), ("S { ref v, .. }", "S"), ("(ref mut y, _)", "(i32, bool)"), ("N(x2 @ _)", "N"),
         ("&mut N(ref mut j)", "&mut N"),
+        # raw identifiers inside destructuring patterns, named like what the macro generates
+        ("N(r#%s)" % gen_name, "N"), ("N(r#%s_)" % plain, "N"), ("S { r#%s, .. }" % gen_name, "S"), ("r#%s_" % plain, "u8"),
     ]
 
 
 class Gen:
     def __init__(self, seed):
         self.r = random.Random(seed)
+        self.words = source_dictionary() or ["x"]
 
     # ------------------------------------------------------------------ helpers
     def pick(self, xs):
@@ -66,7 +106,10 @@ class Gen:
         return self.r.sample(BOUNDS, n)
 
     def attrs(self, p=0.25, pool=FN_ATTRS):
-        return "".join(a + " " for a in pool if self.maybe(p / 2))
+        out = "".join(a + " " for a in pool if self.maybe(p / 2))
+        if self.maybe(p):
+            out += "".join(a + " " for a in dictionary_attrs(self.r, self.words, self.r.randint(1, 2)))
+        return out
 
     # ------------------------------------------------------------------ attribute arguments
     def fn_opts(self, allow_invalid=False):
